@@ -28,6 +28,7 @@ void ev(const char* e, const char* op, long a = 0, long b = 0, long r = 0, long 
 void call(const char* op, long a = 0, long b = 0);
 void ret(long r = 0, long v = 0);
 int tid();                 // logical client thread id, 9 on the main thread
+void point();              // harness-inserted scheduling point (e.g. inside a user functor)
 long choose(long n);       // recorded nondeterministic choice 0..n-1 (a scheduler decision)
 bool in_child();           // true inside an execution
 uint32_t block_of(const void* p); // allocation sequence number of the heap block containing p (0 = not heap)
